@@ -56,6 +56,7 @@ type RefResult struct {
 	HookErr  error
 	BytesToReal, BytesFromReal int64
 	RefGaveUp bool
+	Harness   string // harness trouble: the run is inconclusive, never a violation
 }
 
 // RunWithRef executes the run in a fresh bubble.
@@ -63,7 +64,7 @@ func RunWithRef(t *testing.T, rr *RefRun) (res *RefResult) {
 	res = &RefResult{}
 	defer func() {
 		if r := recover(); r != nil {
-			res.Panic = fmt.Sprintf("harness/bubble panic: %v", r)
+			res.Harness = fmt.Sprintf("harness/bubble panic: %v", r)
 			res.Outcome = kernel.Deadlock
 		}
 	}()
@@ -163,6 +164,9 @@ func RunWithRef(t *testing.T, rr *RefRun) (res *RefResult) {
 }
 
 func (r *Result) AddRef(s *RefResult) {
+	if s.Harness != "" {
+		r.Inconclusive = s.Harness
+	}
 	r.Sessions++
 	r.Steps += s.Stats.Steps
 	r.Bytes += s.Stats.Bytes
